@@ -432,10 +432,17 @@ def runByValue (s : Spec κ ν) (st : St κ ν) (cur : Cur κ ν) (order : List 
   let r := run s (reload st) cur order
   (reload r.1, r.2)
 
+/-- the generated sub-graph is edited BY HAND between two runs: a body copy is given another input value
+and it and the collectors downstream of it are run by hand, which writes whatever results (`o`) through
+to the loop's outputs. The composite's cache is keyed on its children, their wiring and their free
+inputs as well, so the next run is no hit whatever its inputs -/
+def tamper (st : St κ ν) (o : Outs κ ν) : St κ ν := { st with outs := o, cached := none }
+
 /-- what can happen to a loop node between its creation and a later run -/
 inductive Ev (κ ν : Type)
   | run (cur : Cur κ ν) (order : List Nat)   -- a run (any inputs, any completion order)
   | rrun (cur : Cur κ ν) (order : List Nat)  -- a run of the node itself on a by-value executor
+  | tamper (o : Outs κ ν)                    -- hand edit of the sub-graph that leaves `o` in the outputs
   | reload                                   -- round trip at rest; the history continues on the copy
   | snap (cur : Cur κ ν)                     -- a run on `cur` is started, the node is pickled while its
                                              -- bodies are out, the history continues on THAT copy
@@ -444,6 +451,7 @@ def evs (s : Spec κ ν) (st : St κ ν) : List (Ev κ ν) → St κ ν
   | [] => st
   | .run cur order :: r => evs s (run s st cur order).1 r
   | .rrun cur order :: r => evs s (runByValue s st cur order).1 r
+  | .tamper o :: r => evs s (tamper st o) r
   | .reload :: r => evs s (reload st) r
   | .snap cur :: r => evs s ((midRun s st cur).getD st) r
 
